@@ -306,9 +306,11 @@ class CallbacksExecutor:
         )
 
     async def async_all(self, *args, **kwargs):
-        coros = [condition(*args, **kwargs) for condition in self]
-        for coro in asyncio.as_completed(coros):
-            if not await coro:
+        # Conditions are evaluated one at a time, in order, stopping at the first that fails
+        # (same semantics as the sync `all`). Every coroutine that is started is awaited before
+        # returning, so no condition is left running in the background.
+        for condition in self:
+            if not await condition(*args, **kwargs):
                 return False
         return True
 
